@@ -182,6 +182,9 @@ func c15(r *ev.Run) {
 		}
 		afterWarmups(r, "suite-fidelity-after-other-operations", cs, suiteFidelity)
 	}
+	volume(r, "suite-fidelity-volume", 1100, func(k int) c15Case {
+		return c15Case{fmt.Sprintf("OCRA-1:HOTP-SHA%s-%d:%sQN%s%s-T%d%s", []string{"1", "256", "512"}[k%3], 4+k%7, []string{"", "C-"}[k%2], []string{"08", "10"}[(k/2)%2], []string{"", "-PSHA1", "-S064"}[(k/3)%3], 1+k/24, []string{"S", "M", "H"}[(k/4)%3]), "grammar"}
+	}, suiteFidelity)
 	if ReplayOnly {
 		return
 	}
@@ -327,6 +330,44 @@ func c15(r *ev.Run) {
 			r.Fail("suite-fidelity", "token-grid "+name+": "+bad, c, bad, obs)
 		}
 	}
+	// (5) edit neighbourhood: every single-character substitution (47-character alphabet), deletion, insertion and adjacent
+	// transposition of a set of well-formed strings - one wrong character anywhere must be noticed, never approximated
+	var en atomic.Int64
+	bases := []string{"OCRA-1:HOTP-SHA1-6:QN08", "OCRA-1:HOTP-SHA256-8:C-QA10-PSHA256-S064-T1M", "OCRA-1:HOTP-SHA512-10:QH10-T48H", "OCRA-1:HOTP-SHA1-7:C-QN10-PSHA1", "OCRA-1:HOTP-SHA512-4:QA08-S128-T30S", "ocra-1:hotp-sha256-9:c-qh08-psha512-s512-t5m"}
+	const editAlpha = "ABCDEFGHIJKLMNOPQRSTUVWXYZ0123456789-:+. _anqx"
+	ev.Par(len(bases), func(bi int) {
+		b := bases[bi]
+		seen := map[string]bool{}
+		try1 := func(name string) {
+			if seen[name] {
+				return
+			}
+			seen[name] = true
+			c := c15Case{name, "grammar"}
+			obs, bad := suiteFidelity(c)
+			en.Add(1)
+			if bad != "" {
+				r.Fail("suite-fidelity", "edit-neighbour "+name+": "+bad, c, bad, obs)
+			}
+		}
+		for i := 0; i <= len(b); i++ {
+			for k := 0; k < len(editAlpha); k++ {
+				ch := editAlpha[k : k+1]
+				try1(b[:i] + ch + b[i:])
+				if i < len(b) {
+					try1(b[:i] + ch + b[i+1:])
+				}
+			}
+			if i < len(b) {
+				try1(b[:i] + b[i+1:])
+			}
+			if i+1 < len(b) {
+				try1(b[:i] + b[i+1:i+2] + b[i:i+1] + b[i+2:])
+			}
+		}
+	})
+	r.Eval(en.Load())
+	r.Set("edit_neighbour_strings", en.Load())
 	r.Eval(tg)
 	r.Set("token_grid_strings", tg)
 	r.Eval(n1)
